@@ -92,6 +92,17 @@ CLAIMS = {
    note="Trusted: TLC, Fix.tla; abscissae on a quarter grid so divided differences are exact integer divisions.",
    technique="TLA+ interpolation spec with exact polynomial oracle; interval law model-checked; trace validation",
    ref="5/C12"),
+ "C13": dict(
+   text="Finders.tla specifies the event-finder protocol (never backwards, consecutive distinct results one period apart within "
+        "the natural variation so that no event is skipped, result within one period of the query, range refusal) with the "
+        "mean periods as constants; an abstract nearest-event finder is model-checked against it; every one of the 56 finder "
+        "variants is swept with sorted queries at 1/20-period steps over windows across -2000..4000 and TLC evaluates the "
+        "protocol as an action property over consecutive events; for sampled events TLC checks on the library's own VSOP87 "
+        "positions at r, r+-tol, r+-2tol that the defining sign change/extremum happens there.",
+   note="Trusted: TLC, Fix.tla, period constants from Meeus' tables, the harness wiring of the library's own positions "
+        "(geocentric_position, Sun.apparent_geocentric_position, equatorial2ecliptical) into the five-point stencils.",
+   technique="TLA+ finder protocol (action property over sorted query traces) + event-reality stencils judged by TLC",
+   ref="5/C13"),
 }
 
 PENDING_REASON = "check not built yet in this round (specification module planned in DESIGN.md section 5); not claimed until its trace specification validates the unchanged tree"
